@@ -113,6 +113,72 @@ fn bu_queue_require_now_then_pop_reversed_chain() { run_queue(1, true); }
 #[allow(dead_code)]
 fn bu_queue_pop_independent() { run_queue(4, false); }
 
+/// The topological ranks change BETWEEN queue operations (a task that is executing requires an older task for the first time,
+/// `DAG::add_edge` re-ranks): after a first `pop`, a new require edge a -> b is added to the store, then `b` is required now
+/// and the queue is drained. Order and completeness are judged against the closure of the UPDATED edge set.
+fn run_queue_rerank(sh: u8) {
+  let mut store = Store::default();
+  let n = build(&mut store, sh);
+  let e0 = shape(sh);
+  let cl0 = closure(e0);
+  split(3, |ord| { split(NT as u8, |a| { split(NT as u8, |b| {
+    let (a, b) = (a as usize, b as usize);
+    if a == b || cl0[b][a] || cl0[a][b] { return; }   // the new edge must be new and keep the graph acyclic
+    let mut q: Queue = Queue::new();
+    let order = add_order(match ord { 0 => 0, 1 => 1, _ => 7 });
+    let mut queued = [false; NT];
+    let mut i = 0;
+    while i < order.len() { q.add(n[order[i]]); queued[order[i]] = true; i += 1; }
+    // first pop (sorts the queue under the OLD ranks)
+    if let Some(g) = q.pop(&store) {
+      let gi = idx(&n, &g);
+      assert!(gi < NT && queued[gi], "C04 only scheduled tasks are handed out");
+      let mut j = 0;
+      while j < NT { if queued[j] && j != gi { assert!(!cl0[gi][j], "C04 a scheduled task is never executed before a scheduled task it depends on"); } j += 1; }
+      queued[gi] = false;
+    }
+    // new require edge a -> b
+    assert!(store.add_dependency(&n[a], &n[b], TaskDependency::new(P(b as u8), AlwaysOk, ()).into_require()).is_ok(), "harness: acyclic");
+    let mut ed = [(0usize, 0usize); 5];
+    let mut m = 0; while m < e0.len() { ed[m] = e0[m]; m += 1; }
+    ed[m] = (a, b);
+    let cl = closure(&ed[..m + 1]);
+    vcover!(store.topologically_compare(&n[a], &n[b]) == ::std::cmp::Ordering::Less, "c04 rerank: new edge respected by the ranks");
+    // require-now of b
+    let got = q.pop_least_task_with_dependency_from(&n[b], &store);
+    let mut any = false; let mut j = 0;
+    while j < NT { if queued[j] && (j == b || cl[b][j]) { any = true; } j += 1; }
+    assert!(got.is_some() == any, "C04 after a re-ranking, a scheduled (dependency of the) required task is still found iff there is one");
+    if let Some(g) = got {
+      let gi = idx(&n, &g);
+      assert!(gi < NT && queued[gi] && (gi == b || cl[b][gi]), "C04 the task handed out is scheduled and is (a dependency of) the required task");
+      let mut j = 0;
+      while j < NT { if queued[j] && j != gi { assert!(!cl[gi][j], "C04 never a task before a scheduled task it depends on (require-now after re-ranking)"); } j += 1; }
+      queued[gi] = false;
+    }
+    // drain under the NEW ranks
+    let mut k = 0;
+    while k < NT + 1 {
+      match q.pop(&store) {
+        None => { let mut j = 0; while j < NT { assert!(!queued[j], "C04 every scheduled task is handed out"); j += 1; } break; }
+        Some(g) => {
+          let gi = idx(&n, &g);
+          assert!(gi < NT && queued[gi], "C04 a task is handed out at most once, and only if scheduled");
+          let mut j = 0;
+          while j < NT { if queued[j] && j != gi { assert!(!cl[gi][j], "C04 a scheduled task is never executed before a scheduled task it depends on (after re-ranking)"); } j += 1; }
+          queued[gi] = false;
+        }
+      }
+      k += 1;
+    }
+  }); }); });
+  ::std::mem::forget(store);
+}
+//@h props=C04 tier=quick unwind=14 stubs=sort,boxslice timeout=1500 fieldsens=1024
+fn bu_queue_rerank_between_operations_pairs() { run_queue_rerank(3); }
+//@h props=C04 tier=quick unwind=14 stubs=sort,boxslice timeout=1500 fieldsens=1024
+fn bu_queue_rerank_between_operations_independent() { run_queue_rerank(4); }
+
 /// Scheduling by a changed resource: a reader and a writer of Cell(0) are each scheduled iff their own checker reports
 /// inconsistency, or fails (then the error is reported as well); consistent ones are not scheduled.
 //@h props=C04,C18,C09:t tier=quick unwind=14 stubs=sort,boxslice timeout=900 fieldsens=1024
